@@ -9,7 +9,7 @@ emit(glue, frame_objects) -> the binary messages the glue hands to the websocket
 """
 import asyncio
 
-GLUES = ('aiohttp_client', 'aiohttp_server', 'websockets', 'asyncwebsockets', 'quart', 'channels')
+GLUES = ('aiohttp_client', 'aiohttp_server', 'websockets', 'asyncwebsockets', 'quart', 'channels', 'http3')
 
 
 class Endless(Exception):
@@ -45,6 +45,13 @@ class FakeWS:
         await asyncio.sleep(0)
         if not self.incoming:
             raise asyncio.CancelledError()
+        return self.incoming.pop(0)
+
+    async def receive_bytes(self):  # http3
+        from starlette.websockets import WebSocketDisconnect
+        await asyncio.sleep(0)
+        if not self.incoming:
+            raise WebSocketDisconnect()
         return self.incoming.pop(0)
 
     async def close(self):
@@ -106,6 +113,13 @@ async def _make(glue, ws):
         qw.websocket = ws  # the module reads quart's context-local proxy through this name
         t = qw.TransportQuartWebsocket()
         return t, t.handle_incoming_ws_messages
+    if glue == 'http3':
+        from rsocket.transports.http3_transport import Http3TransportWebsocket
+        t = Http3TransportWebsocket(ws)
+
+        async def run():
+            await t._listener
+        return t, run
     if glue == 'channels':
         from rsocket.transports.channels_transport import AsyncRSocketConsumer, ChannelsTransport
         consumer = AsyncRSocketConsumer()
@@ -153,7 +167,7 @@ async def emit(loop, glue, frame_objects):
         await asyncio.sleep(0)
     if glue == 'websockets':
         producer.cancel()
-    if glue in ('channels', 'aiohttp_client', 'asyncwebsockets'):
+    if glue in ('channels', 'aiohttp_client', 'asyncwebsockets', 'http3'):
         try:
             await t.close()
         except Exception:
